@@ -55,8 +55,8 @@ FAMILIES = {   # name -> (K quick, K thorough, one task per time); heavy familie
 }
 SUOLSON_ALPHABET = {"trad_bc_ev": [1.0e3, 500.0], "opac": [1.0, 2.5], "alpha": [3.02636565993931701e-14, 6.05273131987863402e-14]}
 MADER_N = [50, 100, 101, 257]
-MADER_UP = [0.0, 2.0e4]
-MADER_GAMMA = [3.0, 2.0]
+MADER_UP = [0.0, 2.0e4, -2.0e4]       # full product with the gammas on both sides of 3: (gamma - 3) u_piston of either sign (S3-C17-2)
+MADER_GAMMA = [3.0, 2.0, 3.5]
 MADER_T = [2.0e-6, 4.0e-6, 6.25e-6]
 NOFF = 16
 
